@@ -592,8 +592,23 @@ func runDisc(c DiscCase) []ev.Violation {
 				// good replacement listing; it is the subject of C10, not of this property): recorded only.
 				if u, ok := s.Registry.(*registry.UnifiedMemoryModelRegistry); ok {
 					if direct, derr := hasEndpoint(u.MemoryModelRegistry, n, A.URL()); derr == nil && !direct {
+						// only the unified-catalogue fallback still names the endpoint: the catalogue's two
+						// layers disagree about this endpoint (judged since the unified catalogue follows the
+						// endpoint's latest listing, olla b2a299e; the caller lets background unification settle)
+						// the unified catalogue merges names that are equal up to letter case, and entries
+						// sharing a digest (the harness's ollama listings number their digests by position):
+						// the endpoint is then a legitimate source for n
+						equiv := c.TypeA == "ollama"
+						for have := range set {
+							if strings.EqualFold(have, n) {
+								equiv = true
+							}
+						}
+						if equiv {
+							continue
+						}
 						stale = true
-						continue
+						return "discovery/unified-catalogue-stale-for-dropped-model/" + c.Kind, fmt.Sprintf("after serving %s endpoint A (%s) lists %v (before: %v): the model->endpoints index has dropped it for %q but the unified catalogue still names it as a source", show([]byte(poison)), c.TypeA, names, c.GoodA, n)
 					}
 				}
 				return "discovery/stale-endpoint-for-dropped-model/" + c.Kind, fmt.Sprintf("after serving %s endpoint A (%s) lists %v (before: %v) but the model->endpoints index still has it under %q", show([]byte(poison)), c.TypeA, names, c.GoodA, n)
